@@ -40,6 +40,12 @@ CHECKS = {
  "C20": dict(level="model_checking", technique="bounded-exhaustive enumeration of HTTP bodies on the real tiny_http front end vs a reference model of the single-node semantics",
    text="Every body of 1..4 (quick) / 1..5 (thorough) commands over 18 letters (auth ok/bad, use-db ok/bad/user token, get, get-safe, set, set-safe accepted/stale, remove, increment numeric/non-numeric, keys, create-db allowed/refused, secure key, watch; refusals for missing selection and missing permission arise from the order) is POSTed to the real start_http_client server (8 instances in parallel); bodies of <=2 commands also with trailing ';', blank statements and padding. Oracle: reply split on ';' equals, entry by entry, what the reference says each command alone produces; afterwards the database content equals the model (each command executed once, in order), no watcher of the request remains, $connections is back to 0.",
    note="The harness resets the server's state between bodies. Values contain no ';' or newline. WebSocket frames are not part of this check.", design="7/C20"),
+ "C11": dict(level="fault_enumeration", technique="exhaustive crash-point enumeration: the directory before every mutating system call of the snapshot (libc interposition in the harness) is recovered with the real start-up code",
+   text="118 scenarios (quick 34): a dataset persisted by a completed snapshot x {no change, new key, updated key, update+new, remove, remove+update, increment+update} x value sizes {3,240,260,600} B around the 250-byte writer buffer x {incremental, reclaiming} x every write order of up to 3 dirty keys. For every prefix of the snapshot's system-call sequence (write/pwrite/rename/unlink/create/truncate/mkdir, each atomic) the directory is restarted with the real start-up + load: no panic, every key of the previously snapshotted database loads as its on-disk-before or being-written (value, version), untouched keys and the neighbour database unchanged, metadata unchanged.",
+   note="Crash = process kill (prefix of the syscall sequence); power-loss reordering and torn single syscalls out of scope. 22 known findings (the snapshot is not crash-safe) are listed by clause + snapshot kind + crash position (+ value-size class where the original is safe).", design="7/C11"),
+ "C16": dict(level="fault_enumeration", technique="explicit-state BFS over create-db/write/snapshot/shutdown/kill histories (SEQ) with exhaustive crash-point enumeration inside every step (CRASH)",
+   text="All histories up to the bound over create-db d0..d2 / first write of a new key / rewrite / snapshot / clean shutdown+restart / kill+restart with the real replication loop (key-id registration, oplog-valid flag, oplog append); inside every step the directory before each mutating system call, and the state after the step, is restarted with the real start-up code: either the log was discarded or every record decodes (through the restarted node's id maps) to the database and key the writer was given; database ids and key ids unique in the live node and after every restart.",
+   note="Known findings (listed): records of never-snapshotted databases survive in a valid log; a kill inside a database's first snapshot panics start-up. The driver keeps the writer's intent per op id.", design="7/C16"),
 }
 
 def main():
